@@ -1219,12 +1219,19 @@ def nsec_reader_obligation(ctx: Any, R: str) -> Ob:
     test_ok = val_ok = False
     from .common import expand
 
+    # `if byte & mask: append(...)`, or the guard spelling `if not byte & mask: continue` followed by the append
+    blocks = [b for x in walk_local_ordered(r.node) for fld in ('body', 'orelse') for b in [getattr(x, fld, None)] if isinstance(b, list) and b and isinstance(b[0], ast.stmt)]
     for n in walk_local_ordered(r.node):
-        if isinstance(n, ast.If) and isinstance(n.test, ast.BinOp) and isinstance(n.test.op, ast.BitAnd):
-            sh = n.test.right
+        tst = n.test if isinstance(n, ast.If) else None
+        scope: List[ast.AST] = [n]
+        if isinstance(tst, ast.UnaryOp) and isinstance(tst.op, ast.Not) and isinstance(n, ast.If) and len(n.body) == 1 and isinstance(n.body[0], ast.Continue) and not n.orelse:
+            tst = tst.operand
+            scope = next(([s_ for s_ in b[b.index(n) + 1:]] for b in blocks if n in b), [])
+        if isinstance(n, ast.If) and isinstance(tst, ast.BinOp) and isinstance(tst.op, ast.BitAnd):
+            sh = tst.right
             test_ok = isinstance(sh, ast.BinOp) and isinstance(sh.op, ast.RShift) and prog.try_fold(r.module, sh.left) == (True, 0x80)
             bitvar = norm(sh.right) if test_ok else '?'
-            for c in ast.walk(n):
+            for c in [y for s_ in scope for y in ast.walk(s_)]:
                 if isinstance(c, ast.Call) and call_name(c) == 'append':
                     try:
                         p = lf.poly(prog, r.module, expand(r, c.args[0]), lambda x: x.id if isinstance(x, ast.Name) else (norm(x) if isinstance(x, ast.Subscript) else None))
